@@ -353,6 +353,11 @@ func genCanonMarkupDoc(r *RNG, k int) markupDoc {
 			m.add("og", true, `<meta property="og:image" content="`+img+`">`)
 		}
 		var desc, site, sec, pt string
+		// article:author (round-6 addition): a side stream decides, so that the draws of r are
+		// those of earlier versions. 0 = no author tag, 1 = author tags next to the other
+		// article:* properties, 2 = author tags are the ONLY article:* properties.
+		ar := NewRNG(0xa07c14, r.s, uint64(k))
+		authorMode := ar.Intn(3)
 		if p(2) {
 			desc = m.tok("OGD")
 			m.add("og", true, `<meta property="og:description" content="`+desc+`">`)
@@ -366,14 +371,29 @@ func genCanonMarkupDoc(r *RNG, k int) markupDoc {
 			tag := `<meta property="article:section" content="` + sec + `">`
 			if r.Intn(3) == 0 {
 				// an article:* tag that precedes og:type in the document ("in any order")
-				m.fr = append([]mfrag{{"og", true, tag}}, m.fr...)
-			} else {
+				if authorMode != 2 {
+					m.fr = append([]mfrag{{"og", true, tag}}, m.fr...)
+				}
+			} else if authorMode != 2 {
 				m.add("og", true, tag)
 			}
 		}
 		if p(2) {
 			pt = m.tok("OGPT")
-			m.add("og", true, `<meta property="article:published_time" content="`+pt+`">`)
+			if authorMode != 2 {
+				m.add("og", true, `<meta property="article:published_time" content="`+pt+`">`)
+			}
+		}
+		var ogAuthors []string
+		if authorMode == 2 {
+			sec, pt = "", ""
+		}
+		if authorMode != 0 {
+			for i := 0; i < 1+ar.Intn(2); i++ {
+				a := fmt.Sprintf("http://og.example/author/OGAU%dx%d", k, i)
+				ogAuthors = append(ogAuthors, a)
+				m.add("og", true, `<meta property="article:author" content="`+a+`">`)
+			}
 		}
 		// the profile object: first and last name, either may be missing
 		var first, last string
@@ -410,8 +430,8 @@ func genCanonMarkupDoc(r *RNG, k int) markupDoc {
 			}
 			og.images = []data.MarkupImage{{URL: img}}
 			// article:* properties are only read for og:type article
-			if (sec != "" || pt != "") && og.typ == "Article" {
-				og.article = &data.MarkupArticle{Section: sec, PublishedTime: pt}
+			if (sec != "" || pt != "" || len(ogAuthors) > 0) && og.typ == "Article" {
+				og.article = &data.MarkupArticle{Section: sec, PublishedTime: pt, Authors: ogAuthors}
 			}
 		}
 		d.Sig += fmt.Sprintf("og%d,", reqMask)
